@@ -174,7 +174,15 @@ LevelText == << <<"d", "e", "b", "u", "g">>, <<"i", "n", "f", "o">>, <<"w", "a",
                 <<"e", "r", "r", "o", "r">> >>
 
 \* characters LevelParse.tla classifies (anything else: the statement's grammar is not modelled)
-LevelKnown == LowerSet \cup UpperSet \cup PrintableNonLetter \cup Whitespace \cup {"é", "€", "😀"}
+\* the non-ASCII representatives (none is white space): 2-byte é ° ± µ ñ ö ø ÿ º ® ڰ, 3-byte € ⰱ, 4-byte 😀.
+\* The Latin-1 ones are chosen for their bytes: with the high bit dropped, C2/C3 B0..B9 alias
+\* B/C and the digits, BA aliases `:`, AE aliases `.`, DA aliases Z.
+Wide2 == {"é", "°", "±", "µ", "ñ", "ö", "ø", "ÿ", "º", "®", "ڰ"}
+Wide3 == {"€", "ⰱ"}
+Wide4 == {"😀"}
+Wide == Wide2 \cup Wide3 \cup Wide4
+ByteW(c) == IF c \in Wide2 THEN 2 ELSE IF c \in Wide3 THEN 3 ELSE IF c \in Wide4 THEN 4 ELSE 1
+LevelKnown == LowerSet \cup UpperSet \cup PrintableNonLetter \cup Whitespace \cup Wide
 LevelVerdict(t) ==
     IF \E i \in 1..Len(t) : t[i] \notin LevelKnown THEN DontCare
     ELSE LET l == ParseLevel(t) IN IF l = 0 THEN Reject ELSE Accept(l)
@@ -189,7 +197,7 @@ KindVerdict(t) ==
 
 -----------------------------------------------------------------------------
 (* paths: ident (:: ident)*, ident = (XID_Start | _) XID_Continue*  *)
-XidStart == LowerSet \cup UpperSet \cup {"é"}
+XidStart == LowerSet \cup UpperSet \cup {"é", "µ", "ñ", "ö", "ø", "ÿ", "º", "ڰ", "ⰱ"}    \* letters
 IdentStart == XidStart \cup {"_"}
 IdentChar == IdentStart \cup DigitSet
 
@@ -223,6 +231,30 @@ Repl(t, i, c) == [t EXCEPT ![i] = c]
 Del(t, i) == SubSeq(t, 1, i - 1) \o SubSeq(t, i + 1, Len(t))
 Ins(t, i, c) == SubSeq(t, 1, i) \o <<c>> \o SubSeq(t, i + 1, Len(t))
 Swap(t, i) == [t EXCEPT ![i] = t[i + 1], ![i + 1] = t[i]]
+\* byte-length-preserving substitutions in an ASCII text: ByteW(c) adjacent characters
+\* are replaced by the one character c (the length tests of the byte-oriented parsers still pass)
+Squeeze(t, i, c) == SubSeq(t, 1, i - 1) \o <<c>> \o SubSeq(t, i + ByteW(c), Len(t))
+Fill(n, c) == [k \in 1..(n \div ByteW(c)) |-> c]            \* n bytes of c (n divisible by ByteW(c))
+RangeWide(t, a, b, c) == SubSeq(t, 1, a - 1) \o Fill(b - a + 1, c) \o SubSeq(t, b + 1, Len(t))
+\* the fields of a fixed-width text: maximal runs of hex digits (the digits of a timestamp,
+\* version / ids / flags of a traceparent, a whole id)
+FieldRuns(t) ==
+    {r \in (1..Len(t)) \X (1..Len(t)) :
+        /\ r[1] <= r[2] /\ \A k \in r[1]..r[2] : t[k] \in HexSet
+        /\ (r[1] = 1 \/ t[r[1] - 1] \notin HexSet) /\ (r[2] = Len(t) \/ t[r[2] + 1] \notin HexSet)}
+Wide2Seq == <<"ñ", "ò", "ó", "ô", "õ", "ö", "÷", "ø", "°", "±", "µ", "ÿ", "é", "º", "®", "ڰ">>   \* all 2-byte
+\* n bytes of varying 2-byte characters (and one 3-byte character when n is odd)
+MixedWide(n) ==
+    LET m == IF n % 2 = 1 THEN n - 3 ELSE n IN
+    [k \in 1..(m \div 2) |-> Wide2Seq[((k - 1) % Len(Wide2Seq)) + 1]] \o (IF n % 2 = 1 THEN <<"ⰱ">> ELSE <<>>)
+\* every text below has exactly the byte length of the (ASCII) text t and must be rejected
+WideMutants(t, W) ==
+    LET L == Len(t)
+        ranges == FieldRuns(t) \cup {<<1, b>> : b \in 1..L} \cup {<<a, L>> : a \in 1..L}
+    IN {Squeeze(t, p[1], p[2]) : p \in {q \in (1..L) \X W : q[1] + ByteW(q[2]) - 1 <= L}}
+       \cup {RangeWide(t, p[1][1], p[1][2], p[2]) :
+                p \in {q \in ranges \X W : (q[1][2] - q[1][1] + 1) % ByteW(q[2]) = 0}}
+       \cup (IF L >= 3 THEN {MixedWide(L)} ELSE {})
 Mutants(t, A) ==
     {t} \cup {Repl(t, i, c) : i \in 1..Len(t), c \in A} \cup {Del(t, i) : i \in 1..Len(t)}
         \cup {Ins(t, i, c) : i \in 0..Len(t), c \in A} \cup {Swap(t, i) : i \in 1..(Len(t) - 1)}
